@@ -28,7 +28,9 @@ def _walk(code, qual, out):
                                  "<dictcomp>", "<setcomp>"):
                 # class bodies run at import time only: skip their own lines
                 if not _is_class_body(c):
-                    out.setdefault(name, set()).update(lines)
+                    # `@overload` stubs share the name of the implementation
+                    # that follows them: the last definition is the real one
+                    out[name] = set(lines)
             else:
                 out.setdefault(qual, set()).update(lines)
             _walk(c, name, out)
